@@ -8,7 +8,7 @@ from ..hooks import Patches
 
 PID = "C03"
 LEVEL = "exploration"
-RULE = ("generated fronts (with/without tied values, zero-range objectives) through crowding_distance; ranked populations "
+RULE = ("generated fronts (with/without tied values, zero-range objectives, objectives rescaled by 2**-1000..2**900) through crowding_distance; ranked populations "
         "with duplicated designs, hash-colliding vectors and k from 1 to 2*size through nondominated_truncate; size-2 and "
         "larger populations through TournamentSelector.select with the drawn pair tapped; the same monitors inside NSGA-II/"
         "SMPSO/PSOGA/OMOPSO runs. non-trivial: front of >=3 members / truncation that actually cuts or de-duplicates / "
@@ -242,6 +242,12 @@ def run_case(ctx, name, params):
                 c[z] = 0.25
         else:
             costs = [gen.cost_vector(r, m, "grid") + [0] for _ in range(n)]
+        if r.random() < 0.5:
+            # objectives on very different scales (exact: powers of two): the distances are ratios, a range of 1e-300 or of
+            # 1e+270 normalises like any other, and only a range of exactly zero contributes nothing
+            ks = [r.choice([0, -60, -200, -1000, 60, 500, 900, r.randint(-1000, 900)]) for _ in range(m)]
+            costs = [[c[d] * 2.0 ** ks[d] for d in range(m)] + [c[-1]] for c in costs]
+            ctx.count("crowding_fronts_with_rescaled_objectives")
         front = [_ind([float(i)], c) for i, c in enumerate(costs)]
         members = list(front)
         snap = [list(c) for c in costs]
